@@ -425,6 +425,15 @@ def case_b(draw):
                         i, j = draw(st.integers(0, nx - 1)), draw(st.integers(0, ny - 1))
                     k1 = draw(st.integers(0, nz - 1))
                     k2 = min(nz - 1, k1 + draw(st.integers(0, 2)))
+                    if not W["column"] and conns and draw(st.integers(0, 2)) == 0:
+                        # the mirror image of an existing connection about the well head, same layer: two connections at
+                        # exactly the same distance from the head (ties in the TRACK ordering)
+                        ci, cj, ck = conns[draw(st.integers(0, len(conns) - 1))]
+                        mi, mj = 2 * W["head"][0] - ci, 2 * W["head"][1] - cj
+                        if draw(st.booleans()):
+                            mj = cj if 0 <= mi < nx and mi != ci else mj
+                        if 0 <= mi < nx and 0 <= mj < ny:
+                            i, j, k1, k2 = mi, mj, ck, ck
                 for k in range(k1, k2 + 1):
                     idx = i + nx * (j + ny * k)
                     if (act is None or act[idx] == 1) and [i, j, k] not in conns:
